@@ -140,9 +140,13 @@ MatPX == <<<<Times(P(1), X(1)), Times(P(3), X(3))>>, <<Times(P(2), X(2)), Times(
 ReadsC07(s) ==
   LET grids == IF s.meth = "DC" THEN <<"control", "control-", "integrator", "roots">> ELSE <<"control", "control-", "integrator">>
       matsZ == <<<<<<Z(1)>>>>, <<<<Plus(Times(Z(1), X(1)), Tm)>>>>, <<<<Z(1), X(1)>>>>>>      \* algebraic variable (R6)
-      mats == IF s.rhs = "R6" THEN matsZ ELSE IF s.rhs = "R8" THEN <<<<<<E1>>>>, Col2, Row2, Mat22, MatX, MatPX>> ELSE <<<<<<E1>>>>, <<<<E2>>>>, <<<<E3>>>>, <<<<E4>>>>, Col2, Row2, Mat22>>
+      matsP == <<<<<<Plus(Times(P(1), X(1)), U(1))>>>>, <<<<P(1), Tm>>>>>>                   \* per-interval parameters (R4, RA)
+      mats == IF s.rhs = "R6" THEN matsZ ELSE IF s.rhs \in {"R4", "RA"} THEN matsP ELSE IF s.rhs = "R8" THEN <<<<<<E1>>>>, Col2, Row2, Mat22, MatX, MatPX>> ELSE <<<<<<E1>>>>, <<<<E2>>>>, <<<<E3>>>>, <<<<E4>>>>, Col2, Row2, Mat22>>
   IN Flat(Tup([gi \in 1..Len(grids) |-> Tup([mi \in 1..Len(mats) |-> MRead("C07.a", "msample", mats[mi], grids[gi])])]))
      \o <<MRead("C07.b", "mvalue", <<<<Plus(Times(TT, CI(3)), T0)>>>>, ""), MRead("C07.b", "mvalue", <<<<TT, T0>>, <<TF, CI(1)>>>>, "")>>
+     \* integrator grid with refine (explicit schemes and exact collocation schemes have a dense output)
+     \o (IF s.rhs \in {"R4", "RA"} THEN <<RRead("C07.a", Plus(Times(P(1), X(1)), U(1)), 2), RRead("C07.a", P(Len(Rhs(s.rhs, s.N).params)), 3)>>
+         ELSE <<RRead("C07.a", E1, 2)>>)
 
 MkDeclS(s) ==
   LET N == s.N
@@ -152,7 +156,7 @@ MkDeclS(s) ==
                        !.reads = ReadsC07(s)]
   IN WithHorizon(d1, s.hz, IF s.seed % 2 = 0 THEN One ELSE Q(-1, 2), TBase(s.grid, N))
 
-SpaceS == {s \in [rhs : {"R3v", "R8", "R6"}, meth : {"MS", "SS", "DC"}, N : 1..(IF Thorough THEN 3 ELSE 2), M : 1..2, grid : {"uni", "geo"},
+SpaceS == {s \in [rhs : {"R3v", "R8", "R6", "R4", "RA"}, meth : {"MS", "SS", "DC"}, N : 1..(IF Thorough THEN 3 ELSE 2), M : 1..2, grid : {"uni", "geo"},
                   hz : {"num", "fb"}, seed : IF Thorough THEN {Seed, Seed + 1} ELSE {Seed}, cons : {<<>>}, obj : {<<>>}] :
               (s.rhs = "R6" => s.meth = "DC")}
 
